@@ -35,6 +35,8 @@ InclV == { <<>>, <<<<"r">>>>, <<<<"rs">>>>, <<<<"r">>, <<"rs">>>>, <<<<"rs">>, <
            <<<<"zz">>>>, <<<<"r", "q">>>>, <<<<"r">>, <<"r", "q">>>>, <<<<"r", "q", "rs", "s">>>>, <<<<"r", "zz">>>>,
            <<<<"r">>, <<"r", "zz">>>>, <<<<"q">>>>, <<<<"s", "r">>, <<"q">>, <<"zz">>>>, <<<<"r">>, <<"r">>>>,
            <<<<"aa">>, <<"bb">>, <<"rs">>>>, <<<<"rs", "s", "rs">>, <<"rs", "s">>, <<"r">>>>,
+           \* a chain of three paths, each extending the one before; a path asked for three times; twice next to its extension
+           <<<<"r">>, <<"r", "q">>, <<"r", "q", "rs">>>>, <<<<"r">>, <<"r">>, <<"r">>>>, <<<<"rs">>, <<"rs">>, <<"rs", "s">>>>,
            <<<<"t">>>>, <<<<"r", "q">>, <<"t", "q">>>>, <<<<"t", "q">>, <<"r", "q">>, <<"rs", "q">>>>, <<<<"t", "q", "s">>, <<"r", "q", "t">>>> }
 FilterV == {"none", "label", "json", "empty", "bad"}
 PageV   == {"none", "size", "sizebad", "both"}
